@@ -343,6 +343,38 @@ def optFits {α : Type} (P : α → Prop) : Option α → Prop
 instance {α : Type} (P : α → Prop) [DecidablePred P] (o : Option α) : Decidable (optFits P o) := by
   cases o <;> simp only [optFits] <;> exact inferInstance
 
+
+/-- `write_length_block(fp, c.write, fmt, padding=pad)` (length field of `w` bytes) /
+`with io.BytesIO(read_length_block(fp, fmt, padding=pad)) as f: c.read(f)` -/
+def blocked {α : Type} (w pad : Nat) (c : PCodec α) : PCodec α where
+  encT v := lenBlockT 0 w pad (c.encT v)
+  Fits v := c.Fits v ∧ FitsU w (c.encT v).length
+  decFits _ := @instDecidableAnd _ _ (c.decFits _) inferInstance
+  encP v := wLenBlock 0 w pad (c.encP v)
+  dec := fun d p => do
+    let (data, p) ← readLenBlock 0 w pad d p
+    let (v, _) ← c.dec data 0
+    .ok (v, p)
+  consumed v := (lenBlockT 0 w pad (c.encT v)).length
+  WF := c.WF
+  decWF := c.decWF
+
+/-- `if self.x is not None: self.x.write(fp)` at the end of `write` / `c.read(fp) if is_readable(fp) else None` -/
+def optTail {α : Type} (c : PCodec α) : PCodec (Option α) where
+  encT := optT c.encT
+  Fits := optFits c.Fits
+  decFits o := by cases o <;> simp only [optFits] <;> first | exact inferInstance | exact c.decFits _
+  encP := optP c.encP
+  dec := fun d p =>
+    if isReadable 1 d p then
+      match c.dec d p with
+      | .ok (v, p') => .ok (some v, p')
+      | .error e => .error e
+    else .ok (none, p)
+  consumed o := (optT c.encT o).length
+  WF := optFits c.WF
+  decWF o := by cases o <;> simp only [optFits] <;> first | exact inferInstance | exact c.decWF _
+
 /-- integers of a row, for the `WF` clauses that look at a field (`version`, a count) -/
 def FV.toInt : FV → Int
   | .int z => z
